@@ -4,6 +4,7 @@ import AwProofs.Lemmas.StoreSqlite
 import AwProofs.Lemmas.StoreMemory
 import AwProofs.Lemmas.StorePeewee
 import AwProofs.Lemmas.HeapOwn
+import AwProofs.Lemmas.HeapRefine
 /-!
 # C01 — stored events come back exactly as inserted, and the store owns its copy
 
@@ -314,6 +315,27 @@ open Heap in
 theorem client_holds_data {s : State} (h : Reachable s) {r d : Ref} (hr : s.client r = true)
     (hd : dataRefOf s r = some d) : s.client d = true :=
   (reachable_sep h).closed r hr d hd
+
+open Heap in
+/-- the heap model and the value model agree on `insert_one`: through `observe`, inserting a held
+    event object without an id is `Memory.insertOne` of the object's value (so the memory theorems
+    of part A describe what the heap model's reads return) -/
+theorem heap_insert_refines_value_model {s : State} (h : Reachable s) {b : String} {r : Ref}
+    {o : EvObj} {mr : Ref} {evs : List Ref} (hr : s.client r = true) (ho : evAt s r = some o)
+    (hid : o.id = none) (hl : lookup s.store b = some (mr, evs)) :
+    Memory.insertOne (observe s) b (evVal s r) =
+      .ok (observe (insertOne s b r).1, some (nextId s evs)) :=
+  insertOne_observe (reachable_sep h) hr ho hid hl
+
+open Heap in
+/-- what `insert_one` returns is a new client-held event object with the passed instant,
+    duration and data and the assigned id -/
+theorem heap_insert_returns {s : State} (h : Reachable s) {b : String} {r : Ref}
+    {o : EvObj} {mr : Ref} {evs : List Ref} (hr : s.client r = true) (ho : evAt s r = some o)
+    (hid : o.id = none) (hl : lookup s.store b = some (mr, evs)) :
+    (insertOne s b r).2 = .ref s.next ∧ (insertOne s b r).1.client s.next = true ∧
+      evVal (insertOne s b r).1 s.next = { evVal s r with id := some (nextId s evs) } :=
+  insertOne_returns (reachable_sep h) hr ho hid hl
 
 /-! ## the hypotheses are satisfiable (non-vacuity) -/
 
